@@ -33,7 +33,7 @@ SPECS = [None, "ID", "Name", ["ID", "Name"], ["Name", "ID"], {"gene": "ID", "exo
 
 def budget(tier):
     if tier == "quick":
-        return {"runs": 2400, "wall": 50, "chunk": 8}
+        return {"runs": 2400, "wall": 120, "chunk": 8}
     return {"runs": 100000, "wall": 1500, "chunk": 8}
 
 
